@@ -218,9 +218,28 @@ fn case_whist(c: &mut Cur) -> Result<Vec<W>, BadCase> {
             ShapeWriter::new(shp2.clone())
         };
         let mut results = vec![];
-        if ending == 2 {
+        if ending == 2 || ending >= 3 {
+            // ending 2: everything through `write_shapes`; ending 3 + k: the last k calls (all writes) are handed
+            // together to `write_shapes` after the calls before them were made one by one
+            let ntail = if ending == 2 { calls.len() } else { ((ending - 3) as usize).min(calls.len()) };
+            let mut calls = calls;
+            let tail = calls.split_off(calls.len() - ntail);
+            for call in &calls {
+                match call {
+                    Call::Finalize => results.push(w.finalize()),
+                    Call::Heal => {
+                        shp2.0.borrow_mut().fault = None;
+                        shx2.0.borrow_mut().fault = None;
+                        results.push(Ok(()));
+                    }
+                    Call::Write(s) => {
+                        let r = with_concrete!(s, x => w.write_shape(x), unreachable!());
+                        results.push(r);
+                    }
+                }
+            }
             let mut shapes = vec![];
-            for call in calls {
+            for call in tail {
                 match call {
                     Call::Write(s) => shapes.push(s),
                     _ => return None,
@@ -292,6 +311,21 @@ enum ROp {
     SkipTake(W, W),
     /// `read_as::<S>()` (`read()` for the generic reader): consumes the reader, so it ends the history
     ReadAll,
+    /// `read_nth_shape_as::<T>(i)` for the concrete type T of the given code (or the generic `read_nth_shape` for -1),
+    /// whatever type the other calls of the history request
+    Probe(W, W),
+}
+
+macro_rules! probe_as {
+    ($reader:expr, $i:expr, $out:expr, $T:ty) => {
+        match $reader.read_nth_shape_as::<$T>($i) {
+            None => $out.push(0),
+            Some(r) => {
+                $out.push(1);
+                render_item(r, $out)
+            }
+        }
+    };
 }
 
 fn render_item<S: Into<Shape>>(r: Result<S, Error>, out: &mut Vec<W>) {
@@ -378,6 +412,26 @@ fn run_rops<T: std::io::Read + std::io::Seek, S: ReadableShape + Into<Shape>>(
                     render_error(&e, out)
                 }
             },
+            ROp::Probe(t, i) => {
+                let i = *i as usize;
+                match *t {
+                    -1 => probe_as!(reader, i, out, Shape),
+                    1 => probe_as!(reader, i, out, Point),
+                    21 => probe_as!(reader, i, out, PointM),
+                    11 => probe_as!(reader, i, out, PointZ),
+                    3 => probe_as!(reader, i, out, Polyline),
+                    23 => probe_as!(reader, i, out, PolylineM),
+                    13 => probe_as!(reader, i, out, PolylineZ),
+                    5 => probe_as!(reader, i, out, Polygon),
+                    25 => probe_as!(reader, i, out, PolygonM),
+                    15 => probe_as!(reader, i, out, PolygonZ),
+                    8 => probe_as!(reader, i, out, Multipoint),
+                    28 => probe_as!(reader, i, out, MultipointM),
+                    18 => probe_as!(reader, i, out, MultipointZ),
+                    31 => probe_as!(reader, i, out, Multipatch),
+                    _ => out.push(-1),
+                }
+            }
             ROp::Hint => {
                 let it = reader.iter_shapes_as::<S>();
                 match it.size_hint() {
@@ -413,6 +467,13 @@ fn case_read(c: &mut Cur) -> Result<Vec<W>, BadCase> {
             4 => ROp::Hint,
             5 => ROp::SkipTake(c.n()? as W, c.n()? as W),
             6 => ROp::ReadAll,
+            7 => {
+                let t = c.next()?;
+                if ![-1, 1, 21, 11, 3, 23, 13, 5, 25, 15, 8, 28, 18, 31].contains(&t) {
+                    return Err(BadCase);
+                }
+                ROp::Probe(t, c.n()? as W)
+            }
             _ => return Err(BadCase),
         });
     }
@@ -430,9 +491,12 @@ fn case_read(c: &mut Cur) -> Result<Vec<W>, BadCase> {
         if fk >= 0 {
             src.fault = Some((fk as usize, fpers));
         }
+        // the same short-read schedule on the index source
+        let mut isrc = Source::new(shx);
+        isrc.sched = sched.clone();
         src.sched = sched;
         let reader = if has_shx {
-            ShapeReader::with_shx(src, Source::new(shx))
+            ShapeReader::with_shx(src, isrc)
         } else {
             ShapeReader::new(src)
         };
